@@ -402,6 +402,7 @@ func (h *harness) mutate(st *kState) string {
 		i := src.Intn(len(s.eps), "ep_idx")
 		s.eps[i].term, s.eps[i].ready = true, false
 		s.eps[i].serving = src.Chance(500, "term_serving")
+		s.eps[i].noHint = src.Chance(500, "term_drops_hint")
 		return fmt.Sprintf("%s endpoint %s terminating serving=%v", s.name, s.eps[i].ip, s.eps[i].serving)
 	}
 }
@@ -526,7 +527,7 @@ func run(r *core.R) {
 		"frontend_removed_with_backends", "service_id_changed", "apply_failed_then_retried", "apply_ok_despite_injected_error",
 		"restart_resync_no_writes", "restart_resync_rewrote", "crash_in_backend_update", "crash_in_frontend_update",
 		"crash_in_frontend_delete", "crash_in_backend_delete", "crash_in_affinity_cleanup", "crash_left_orphan_backends",
-		"crash_recovery_newer_state", "crash_point_not_reached", "delete_enoent", "sticky_key_failed_again",
+		"crash_recovery_newer_state", "crash_point_not_reached", "sticky_key_failed_again",
 		"externalip_with_etp_local_unclaimed", "enumerated_crash_points", "enum_crash_point_not_reached",
 		"KNOWN_hinted_terminating_endpoint_blackholes_frontend", "KNOWN_hinted_terminating_endpoint_changes_selection")
 	src := r.Src
